@@ -295,6 +295,19 @@ class _S:
         return ops.getitem(b if isinstance(b, Sym) else Sym(ops.term(b), 'bytes'), slice(lo, hi), None)
 
     @staticmethod
+    def meas(lst, name):
+        """ghost measure of a list (concrete lists: computed from the items)"""
+        from . import lib
+        m = lib.MEASURES[name]
+        if isinstance(lst, SymSeq):
+            t = lst.meas[name]
+        else:
+            t = m.zero()
+            for x in lst.items:
+                t = m.combine(t, m.weight(None, x))
+        return ops.concretize(Sym(z3.simplify(t), 'int' if m.sort == IntSort else 'bytes'))
+
+    @staticmethod
     def byte_at(x, j):
         """element j of a bytes value or bytearray, as an int"""
         jt = ops.term(j, 'int')
